@@ -301,8 +301,17 @@ func (s *JavaFullListener) EnterResource(ctx *parser.ResourceContext) {
 	}
 }
 
+// So are the variables declared in the header of a for statement: `for (Node n = first; n != null; n = n.next())`
+func (s *JavaFullListener) EnterForControl(ctx *parser.ForControlContext) {
+	saved := make(map[string]string, len(localVars))
+	for name, typ := range localVars {
+		saved[name] = typ
+	}
+	localVarScopes = append(localVarScopes, saved)
+}
+
 func (s *JavaFullListener) ExitStatement(ctx *parser.StatementContext) {
-	if ctx.ResourceSpecification() == nil || len(localVarScopes) == 0 {
+	if (ctx.ResourceSpecification() == nil && ctx.ForControl() == nil) || len(localVarScopes) == 0 {
 		return
 	}
 	localVars = localVarScopes[len(localVarScopes)-1]
